@@ -11,6 +11,7 @@ REQUIRES = ["From FL Require Import Num Flat Saddle."]
 SHARD = 4
 CHUNK = 1
 CASE_TIMEOUT = 300
+SEARCH_CAP = 400
 
 LEVEL_TEXT = ("Proof (Coq): for every finite hypothesis class given by its (error, gamma) numbers, every probability "
               "vector Q over it, every multiplier vector lam' >= 0 and every g >= the duality gap of (Q, lam') "
@@ -39,7 +40,7 @@ ASSUMPTIONS = ["base learner is exact over the enumerated class (the property's 
                "float arithmetic of the implementation agrees with exact arithmetic to 1e-6 on these inputs"]
 RULE = ("cases: random datasets n<=16, 2..4 distinct feature rows, 2..3 groups, five parity moments x {difference, "
         "ratio} bounds, eps, max_iter, run_linprog_step, eta0, nu; non-trivial = more than one iteration ran or the "
-        "returned classifier mixes at least two hypotheses or some multiplier is non-zero, and the gap is recomputed "
+        "returned classifier mixes at least two hypotheses or the projected multiplier is non-zero, and the gap is recomputed "
         "by the model")
 EXHAUSTIVE = {"quick": False, "thorough": False}
 
@@ -186,6 +187,13 @@ def impl(case):
         if float(w[h_idx]) != 0.0:
             mix += float(w[h_idx]) * np.asarray(preds[h_idx].predict(Xq), dtype=float).reshape(-1)
     out["pmf1"], out["pmf0"], out["mix"] = _fl(pmf[:, 1]), _fl(pmf[:, 0]), _fl(mix)
+    # the same mixture when the (label-indexed) public weights_ Series is presented in another order
+    keep = eg.weights_
+    try:
+        eg.weights_ = keep.iloc[::-1]
+        out["pmf1_rev"] = _fl(np.asarray(eg._pmf_predict(Xq), dtype=float)[:, 1])
+    finally:
+        eg.weights_ = keep
 
     # ---- search aid: the constrained optimum over the enumerated class (floats)
     import scipy.optimize as opt
@@ -274,9 +282,10 @@ def compare(case, out, model):
             f"predictors_: {out['support_ok']})", "weights_ >= 0, sums to 1, support within predictors_")
     # (vi) _pmf_predict is the weights_-mixture of the predictors' outputs
     if any(abs(a - b) > 1e-9 for a, b in zip(out["pmf1"], out["mix"])) or \
+            any(abs(a - b) > 1e-9 for a, b in zip(out.get("pmf1_rev", out["pmf1"]), out["mix"])) or \
             any(abs(a + b - 1.0) > 1e-9 for a, b in zip(out["pmf0"], out["pmf1"])):
-        bad("_pmf_predict", "pmf", "not-the-mixture", f"_pmf_predict[:,1] = {out['pmf1']} but the weights_-mixture of "
-            f"predictors_ gives {out['mix']}", "_pmf_predict = [1 - m, m] with m = sum_t weights_[t] * predictors_[t](X)")
+        bad("_pmf_predict", "pmf", "not-the-mixture", f"_pmf_predict[:,1] = {out['pmf1']} (with weights_ listed in reverse "
+            f"order: {out.get('pmf1_rev')}) but the weights_-mixture of predictors_ gives {out['mix']}", "_pmf_predict = [1 - m, m] with m = sum_t weights_[t] * predictors_[t](X)")
     # (iv) early stop only below nu (and not before _MIN_ITER)
     if out["last_iter"] < case["max_iter"] - 1:
         if not g < out["nu"]:
@@ -359,7 +368,7 @@ def tags(case, out, model):
 def nontrivial(case, out, model):
     if model is None:
         return False
-    return out["last_iter"] > 0 or sum(1 for x in out["q"] if x > 0) > 1 or any(x != 0 for x in out["lam_eg"])
+    return out["last_iter"] > 0 or sum(1 for x in out["q"] if x > 0) > 1 or any(x != 0 for x in out["proj_eg"])
 
 
 def canon(case):
@@ -373,7 +382,7 @@ def shrink(case):
             if mi < case["max_iter"]:
                 yield dict(case, max_iter=mi)
     if n > 6:
-        for i in range(n):
+        for i in range(0, n, max(1, n // 6)):
             x = case["x"][:i] + case["x"][i + 1:]
             g = case["g"][:i] + case["g"][i + 1:]
             y = case["y"][:i] + case["y"][i + 1:]
